@@ -337,7 +337,7 @@ def _run_loss(case, lose_at):
                 sent = [m for kk, m in rig.sent_messages() if kk == 'msg']
                 if sent:       # the Introspect call: answered at once (introspection is not the subject here)
                     N.deliver(rig.conn, R.encode_message(2, 901, {5: sent[0]['serial']}, 's', [INTROSPECT_XML]))
-                if len(res) == 1 and not hasattr(res[0], 'value'):
+                if len(res) == 1 and hasattr(res[0], 'notifyOnDisconnect') and hasattr(res[0], 'callRemote'):
                     slot['obj'] = res[0]
                     proxies.append(slot)
                 else:
